@@ -128,52 +128,7 @@ def run(rep: Report, tier: str) -> None:
     rep.rule("R16.4", "per-statement process globals are reset on every exit of the statement loop")
 
     # ---- R16.1 configured_connection ------------------------------------------------------------------
-    f = P.func(f"{CFGMOD}.configured_connection")
-    if not any(d.endswith("contextmanager") for d in f.decorators):
-        raise AnalysisError("configured_connection is no longer a @contextmanager (anchor changed)")
-    g = CFG(f.node)
-    yields = [n for n in g.nodes if n.stmt is not None and n.kind == "stmt" and any(isinstance(x, (ast.Yield, ast.YieldFrom)) for x in ast.walk(n.stmt))]
-    if len(yields) != 1:
-        raise AnalysisError(f"configured_connection: expected exactly one yield, found {len(yields)}")
-    # directory
-    rmtree_vars = set()
-    for n in g.nodes:
-        for c in _calls(g, n):
-            if dotted(c.func) in ("shutil.rmtree", "rmtree") and c.args and isinstance(c.args[0], ast.Name):
-                rmtree_vars.add(c.args[0].id)
-    mkdirs = [n for n in g.nodes if n.kind == "stmt" and any(_is_call_to(c, None, "mkdir") and isinstance(c.func.value, ast.Name) for c in _calls(g, n))]
-    if not mkdirs:
-        raise AnalysisError("configured_connection: no <dir>.mkdir() acquisition found (anchor changed)")
-    dir_acq = [n for n in mkdirs if any(isinstance(c.func, ast.Attribute) and isinstance(c.func.value, ast.Name)
-                                        and c.func.value.id in rmtree_vars | {"session_dir"} for c in _calls(g, n))]
-    session_var = None
-    for n in mkdirs:
-        for c in _calls(g, n):
-            if _is_call_to(c, None, "mkdir") and isinstance(c.func.value, ast.Name) and "session" in c.func.value.id:
-                session_var = c.func.value.id
-                dir_acq = [n]
-    if session_var is None:
-        raise AnalysisError("configured_connection: session directory variable not identified")
-    def is_rmtree(c: ast.Call) -> bool:
-        return (dotted(c.func) in ("shutil.rmtree", "rmtree") and bool(c.args) and isinstance(c.args[0], ast.Name)
-                and c.args[0].id == session_var) or via_wrapper(P, f, c, session_var, "rmtree")
-    rel_dir = release_nodes(g, is_rmtree, None)
-    pairing(rep, "R16.1", f, g, f"session directory `{session_var}`", dir_acq, rel_dir, [g.exit, g.raise_exit], "session-dir")
-    # connection
-    conn_acq: List[Node] = []
-    conn_var = None
-    for n in g.nodes:
-        if n.kind == "stmt" and isinstance(n.stmt, (ast.Assign, ast.AnnAssign)) and isinstance(getattr(n.stmt, "value", None), ast.Call):
-            callee = dotted(n.stmt.value.func) or ""
-            if callee.endswith(("create_configured_connection", "duckdb.connect", "connect")):
-                tgt = n.stmt.targets[0] if isinstance(n.stmt, ast.Assign) else n.stmt.target
-                if isinstance(tgt, ast.Name):
-                    conn_var = tgt.id
-                    conn_acq.append(n)
-    if not conn_acq or conn_var is None:
-        raise AnalysisError("configured_connection: connection acquisition not found (anchor changed)")
-    rel_conn = release_nodes(g, lambda c: _is_call_to(c, conn_var, "close") or via_wrapper(P, f, c, conn_var, "close"), conn_var)
-    pairing(rep, "R16.1", f, g, f"connection `{conn_var}`", conn_acq, rel_conn, [g.exit, g.raise_exit], "connection")
+    f, g, yields, conn_var = session_resources(P, rep, "R16.1")
     # the yield hands out the connection acquired here
     y = yields[0]
     yv = [x for x in ast.walk(y.stmt) if isinstance(x, ast.Yield)][0].value
@@ -375,3 +330,67 @@ R163_EXEMPT = {
         "eval's schema-validation connection: in-memory, never used for data; constant SET commands on the fresh connection are taken not to "
         "fail (no input reaches them); every other statement between connect and close is checked for pairing on both exits",
 }
+
+
+def session_resources(P: Program, rep: Report, rule: str):
+    """configured_connection: the session directory and the connection are released on every exit (normal, exception, generator close).
+    Shared with C13: what is left behind by a failed run is a session database that still holds the tables of the statements that ran."""
+    f = P.func(f"{CFGMOD}.configured_connection")
+    if not any(d.endswith("contextmanager") for d in f.decorators):
+        raise AnalysisError("configured_connection is no longer a @contextmanager (anchor changed)")
+    g = CFG(f.node)
+    yields = [n for n in g.nodes if n.stmt is not None and n.kind == "stmt" and any(isinstance(x, (ast.Yield, ast.YieldFrom)) for x in ast.walk(n.stmt))]
+    if len(yields) != 1:
+        raise AnalysisError(f"configured_connection: expected exactly one yield, found {len(yields)}")
+    # directory
+    rmtree_vars = set()
+    for n in g.nodes:
+        for c in _calls(g, n):
+            if dotted(c.func) in ("shutil.rmtree", "rmtree") and c.args and isinstance(c.args[0], ast.Name):
+                rmtree_vars.add(c.args[0].id)
+    mkdirs = [n for n in g.nodes if n.kind == "stmt" and any(_is_call_to(c, None, "mkdir") and isinstance(c.func.value, ast.Name) for c in _calls(g, n))]
+    if not mkdirs:
+        raise AnalysisError("configured_connection: no <dir>.mkdir() acquisition found (anchor changed)")
+    dir_acq = [n for n in mkdirs if any(isinstance(c.func, ast.Attribute) and isinstance(c.func.value, ast.Name)
+                                        and c.func.value.id in rmtree_vars | {"session_dir"} for c in _calls(g, n))]
+    session_var = None
+    for n in mkdirs:
+        for c in _calls(g, n):
+            if _is_call_to(c, None, "mkdir") and isinstance(c.func.value, ast.Name) and "session" in c.func.value.id:
+                session_var = c.func.value.id
+                dir_acq = [n]
+    if session_var is None:
+        raise AnalysisError("configured_connection: session directory variable not identified")
+    def is_rmtree(c: ast.Call) -> bool:
+        return (dotted(c.func) in ("shutil.rmtree", "rmtree") and bool(c.args) and isinstance(c.args[0], ast.Name)
+                and c.args[0].id == session_var) or via_wrapper(P, f, c, session_var, "rmtree")
+    rel_dir = release_nodes(g, is_rmtree, None)
+    pairing(rep, rule, f, g, f"session directory `{session_var}`", dir_acq, rel_dir, [g.exit, g.raise_exit], "session-dir")
+    # connection
+    conn_acq: List[Node] = []
+    conn_var = None
+    for n in g.nodes:
+        if n.kind == "stmt" and isinstance(n.stmt, (ast.Assign, ast.AnnAssign)) and isinstance(getattr(n.stmt, "value", None), ast.Call):
+            callee = dotted(n.stmt.value.func) or ""
+            if callee.endswith(("create_configured_connection", "duckdb.connect", "connect")):
+                tgt = n.stmt.targets[0] if isinstance(n.stmt, ast.Assign) else n.stmt.target
+                if isinstance(tgt, ast.Name):
+                    conn_var = tgt.id
+                    conn_acq.append(n)
+    if not conn_acq or conn_var is None:
+        # `with [closing(]create_configured_connection(...)[)] as conn:` - the with protocol closes on every exit of its body
+        for w in ast.walk(f.node):
+            if isinstance(w, ast.With):
+                for it in w.items:
+                    inner = it.context_expr
+                    if isinstance(inner, ast.Call) and (dotted(inner.func) or "").endswith("closing") and inner.args:
+                        inner = inner.args[0]
+                    if isinstance(inner, ast.Call) and (dotted(inner.func) or "").endswith(("create_configured_connection", "duckdb.connect", "connect")) \
+                            and isinstance(it.optional_vars, ast.Name):
+                        conn_var = it.optional_vars.id
+                        rep.instance(rule, f"connection/{conn_var}/with", nontrivial=True, sample={"acquired": src(it.context_expr)[:80], "released": "with-statement exit"})
+                        return f, g, yields, conn_var
+        raise AnalysisError("configured_connection: connection acquisition not found (anchor changed)")
+    rel_conn = release_nodes(g, lambda c: _is_call_to(c, conn_var, "close") or via_wrapper(P, f, c, conn_var, "close"), conn_var)
+    pairing(rep, rule, f, g, f"connection `{conn_var}`", conn_acq, rel_conn, [g.exit, g.raise_exit], "connection")
+    return f, g, yields, conn_var
